@@ -59,6 +59,19 @@ Example C02_static_index_nonvacuous :
   jail (path_join2 (bs "/a/./b//../c/") (bs "index.html")) = bs "/a/c/index.html".
 Proof. vm_compute. reflexivity. Qed.
 
+(* "a precompressed sibling": for a request path whose last segment is a proper name (not empty,
+   "." or ".."), whatever precedes it, the sibling name the server opens (path ++ ext) cleans to
+   exactly the cleaned path with ext appended — the sibling of the file the cleaned path names. *)
+Theorem C02_static_sibling_of_cleaned_path :
+  forall p s e ext, In (e, ext) gen_static_encodings -> good_seg s ->
+  jail ((p ++ SLASH :: s) ++ ext) = jail (p ++ SLASH :: s) ++ ext.
+Proof. exact sibling_of_cleaned. Qed.
+Print Assumptions C02_static_sibling_of_cleaned_path.
+
+Example C02_static_sibling_nonvacuous :
+  jail (bs "/x/..//dir/./c.txt" ++ bs ".zst") = bs "/dir/c.txt.zst".
+Proof. vm_compute. reflexivity. Qed.
+
 (* An identity-encoded body is a regular file that is not hidden. *)
 Theorem C02_static_plain_body_regular_not_hidden :
   forall fs hide pages prefix m req ae n,
